@@ -296,6 +296,12 @@ _orig_method = M.method
 
 def method(ex, st, recv, name, args, kwargs, node):
     r = st.deref(recv)
+    if on(ex) and name == 'reshape' and isinstance(r, VArr) and r.ndim == 1 and r.tag == 'ivec' and r.t is not None and not callable(r.t) \
+            and len(args) == 2 and not kwargs and isinstance(args[0], int) and args[0] == -1 and isinstance(args[1], int) and args[1] == 1:
+        used('v.reshape(-1, 1) of an integer vector -> the column with the same elements')
+        rows = ex.fresh('col', IM)
+        st.assume(z3.ForAll([_i], rows[_i][0] == r.t[_i], patterns=[rows[_i]]))
+        return imat(rows, r.shape[0], 1)
     out = _orig_method(ex, st, recv, name, args, kwargs, node)
     if on(ex) and isinstance(r, R.VGen) and name == 'choice' and kwargs.get('replace', True) is False and isinstance(out, VArr) and out.ndim == 1 \
             and out.tag == 'ivec' and out.t is not None and args:
@@ -321,9 +327,11 @@ ichain = z3.Function('ichain', T.TT, T.IDX, I, I, I, T.Mat)      # prod_{m=lo..h
 _u, _n, _c, _lo, _hi, _off, _lo2 = z3.Ints('u!o n!o c!o lo!o hi!o off!o lo2!o')
 _Y = z3.Const('Y!o', T.TT)
 _ix = z3.Const('ix!o', T.IDX)
+T.GROUPS['qdmdef'] = [          # the meaning of qd / qm (never needed inside the e-matching proofs: it would bring in a nonlinear product)
+    T.A([_u, _n], z3.Implies(z3.And(_u >= 0, _n >= 1), _u == qd(_u, _n) * _n + qm(_u, _n)), [qd(_u, _n)]),
+]
 T.GROUPS['qdm'] = [
-    T.A([_u, _n], z3.Implies(z3.And(_u >= 0, _n >= 1), z3.And(_u == qd(_u, _n) * _n + qm(_u, _n), 0 <= qm(_u, _n), qm(_u, _n) < _n, qd(_u, _n) >= 0)),
-        [qd(_u, _n)], ),
+    T.A([_u, _n], z3.Implies(z3.And(_u >= 0, _n >= 1), qd(_u, _n) >= 0), [qd(_u, _n)]),
     T.A([_u, _n], z3.Implies(z3.And(_u >= 0, _n >= 1), z3.And(0 <= qm(_u, _n), qm(_u, _n) < _n)), [qm(_u, _n)]),
     T.A([_u, _n, _c], z3.Implies(z3.And(_u >= 0, _n >= 1, _c >= 0, _u < T.mulI(_c, _n)), qd(_u, _n) < _c), [z3.MultiPattern(qd(_u, _n), T.mulI(_c, _n))]),
     T.A([_u, _n, _c], z3.Implies(z3.And(_u >= 0, _n >= 1, _c >= 0, _u < T.mulI(_n, _c)), qd(_u, _n) < _c), [z3.MultiPattern(qd(_u, _n), T.mulI(_n, _c))]),
@@ -414,13 +422,17 @@ def reshape(ex, st, a, shp, order, node):
                 ex.oblige(st, 'call-pre', 'reshape-keeps-the-rank-dimension', Z(dims[1]) == Z(a.shape[2]), node)
                 new = ex.fresh('Qv', MatA)
                 st.assume(z3.ForAll([_u], new[_u] == T.mm(vecs[qd(_u, n)], T.sl(G, qm(_u, n))), patterns=[new[_u]]))
-                return qvecs((rows_count(c, n), a.shape[2]), new, 0)
+                out = qvecs((rows_count(c, n), a.shape[2]), new, 0)
+                out.qmap = (lambda u, n=n: qd(u, n), lambda u, n=n: qm(u, n))          # vector u <- (candidate, mode index)
+                return out
             if a.axis == 1 and isinstance(dims[1], int) and dims[1] == -1:
                 used('X.reshape(r1, -1) of a (r1, n, c) array (C order) -> column u is X[:, u div c, u mod c]; requires the first dimension to be r1')
                 ex.oblige(st, 'call-pre', 'reshape-keeps-the-rank-dimension', Z(dims[0]) == Z(a.shape[0]), node)
                 new = ex.fresh('Qv', MatA)
                 st.assume(z3.ForAll([_u], new[_u] == T.mm(T.sl(G, qd(_u, c)), vecs[qm(_u, c)]), patterns=[new[_u]]))
-                return qvecs((a.shape[0], rows_count(n, c)), new, 1)
+                out = qvecs((a.shape[0], rows_count(n, c)), new, 1)
+                out.qmap = (lambda u, c=c: qm(u, Z(c)), lambda u, c=c: qd(u, Z(c)))
+                return out
             raise Unsupported('reshape of the extended candidate array')
     return _orig_reshape(ex, st, a, shp, order, node)
 
@@ -481,13 +493,17 @@ def m_kron_tables(ex, st, args, kwargs, node):
             used('np.kron(A, ones((n, 1))) -> every row of A repeated n times in a row: row u is A[u div n]')
             rows = ex.fresh('kron', IM)
             st.assume(z3.ForAll([_u], rows[_u] == a.rows[qd(_u, n)], patterns=[rows[_u]]))
-            return imat(rows, rows_count(a.shape[0], n), a.shape[1])
+            out = imat(rows, rows_count(a.shape[0], n), a.shape[1])
+            out.rowmap = (lambda u, n=n: qd(u, n), a)
+            return out
         if getattr(a, 'ones', False) and isinstance(a.shape[1], int) and a.shape[1] == 1:
             n = Z(b.shape[0])
             used('np.kron(ones((c, 1)), B) -> B repeated c times one below the other: row u is B[u mod rows(B)]')
             rows = ex.fresh('kron', IM)
             st.assume(z3.ForAll([_u], rows[_u] == b.rows[qm(_u, n)], patterns=[rows[_u]]))
-            return imat(rows, rows_count(a.shape[0], n), b.shape[1])
+            out = imat(rows, rows_count(a.shape[0], n), b.shape[1])
+            out.rowmap = (lambda u, n=n: qm(u, n), b)
+            return out
         raise Unsupported('np.kron of two index tables neither of which is a column of ones')
     return _orig_kron(ex, st, args, kwargs, node)
 
@@ -506,7 +522,9 @@ def m_hstack_tables(ex, st, args, kwargs, node):
             wa = Z(a.shape[1])
             rows = ex.fresh('hst', IM)
             st.assume(z3.ForAll([_u, _k], rows[_u][_k] == z3.If(_k < wa, a.rows[_u][_k], b.rows[_u][_k - wa]), patterns=[rows[_u][_k]]))
-            return imat(rows, a.shape[0], z3.simplify(wa + Z(b.shape[1])))
+            out = imat(rows, a.shape[0], z3.simplify(wa + Z(b.shape[1])))
+            out.hparts = (a, b)
+            return out
     return _orig_hstack(ex, st, args, kwargs, node)
 
 
